@@ -306,9 +306,7 @@ class Ref:
             i = op[1]
             if -n <= i < n:
                 return ('v', l[i])
-            if i < -n:
-                self.in_model = False
-            return SKIP
+            return SKIP          # outside the statement's domain; a pure read, compared by nobody
         if name == 'slice':
             a, b, c = op[1], op[2], op[3]
             if c is None or c > 0:
@@ -381,8 +379,10 @@ class C11(Property):
             'operation ran while its receiver had tombstones (dead_indices non-empty); distinct = distinct case.')
     ASSUMPTIONS = ['items are hashable with == consistent with hash (ints, equal floats as aliases, and int '
                    'subclasses whose <, >, <=, >= raise)',
-                   'index arguments lie in [-len, len) (pop/getitem beyond len only for the correspondence), '
-                   'slice steps judged by the oracle are positive or None',
+                   'index arguments lie in [-len, len): pop(i) outside that range is never generated (a mutator '
+                   'outside the statement), s[i] outside it and slices with a negative or zero step are executed '
+                   'but judged by nobody (neither oracle nor correspondence; an informational probe records how '
+                   'many of them the code answers like the model)',
                    'operands are set, frozenset, list, tuple or IndexedSet; operator forms only with set, '
                    'frozenset, IndexedSet',
                    'iteration order of a CPython set of small ints is a function of its construction',
@@ -444,10 +444,90 @@ class C11(Property):
             if got != want or su._COMPACTION_FACTOR != factor:
                 raise InfraError('generated constants out of date: driver %r, source %r, live %r'
                                  % (got, want, su._COMPACTION_FACTOR))
+            self._check_bisect_model(d)
+            self._probe_outside_statement(d)
         return []
+
+    def _probe_outside_statement(self, d):
+        """INFORMATIONAL (never a verdict): reads the statement leaves free - s[i] with i >= len, slices with
+        a negative step - are characterised by theorems about the model (index_beyond_len_raises,
+        slice_negative_step) but are not compared by the correspondence; this probe records how many of
+        them the current code answers like the model"""
+        import random
+        rng = random.Random(1103)
+        cases = []
+        for _ in range(150):
+            n0 = rng.randrange(1, 14)
+            ref = Ref(n0)
+            ops = []
+            for _ in range(rng.randrange(0, 4)):
+                if ref.l:
+                    op = ['remove', rng.choice(ref.l)]
+                    ops.append(op)
+                    ref.expect(op)
+            n = len(ref.l)
+            for _ in range(3):
+                if rng.random() < 0.4:
+                    ops.append(['get', n + rng.randrange(0, 3)])
+                else:
+                    b = lambda: rng.choice([None, rng.randrange(-n - 2, n + 3)])
+                    ops.append(['slice', b(), b(), -rng.randrange(1, 4)])
+            cases.append({'n0': n0, 'cf': rng.choice([None, 2, 3]), 'nk': n0 + 2, 'alias': 0, 'ops': ops})
+        agree = total = 0
+        self._raw_outside = True
+        try:
+            lines = [self.line(c) for c in cases]
+            keep = [(c, ln) for c, ln in zip(cases, lines) if ln is not None]
+            outs = d.query([ln for _, ln in keep])
+            for (c, _), mo in zip(keep, outs):
+                total += 1
+                if self.render(c, self.impl(c)) == mo:
+                    agree += 1
+        except Exception as e:      # informational only
+            self.stats['outside_statement_probe_error'] = repr(e)[:200]
+        finally:
+            self._raw_outside = False
+        self.stats['outside_statement_probes'] = total
+        self.stats['outside_statement_probes_agreeing_with_model'] = agree
+
+    def _check_bisect_model(self, d):
+        """the Lean model of the stdlib's bisect_left (C11.bisectLeftPy, proved equal to the abstraction
+        C11.bisectLeft on every reachable interval table) against the bisect_left the code really calls:
+        on ANY list of [start, stop] pairs (sorted or not) both run the same loop; on sorted tables the
+        abstraction must agree as well"""
+        import random
+        import bisect
+        bl = bisect.bisect_left     # the stdlib function itself (what the code imports under that name is its business)
+        rng = random.Random(11)
+        lines, want = [], []
+        for i in range(400):
+            n = rng.randrange(0, 12)
+            if i % 2:        # a well-formed table: increasing disjoint runs, sometimes adjacent
+                pos, tbl = 0, []
+                for _ in range(n):
+                    a = pos + rng.randrange(0, 3)
+                    b = a + rng.randrange(1, 4)
+                    tbl.append([a, b])
+                    pos = b
+            else:
+                tbl = [[rng.randrange(0, 9), rng.randrange(0, 9)] for _ in range(n)]
+            c = [rng.randrange(0, 12), 0]
+            c[1] = c[0] + 1 if rng.random() < 0.7 else rng.randrange(0, 12)
+            lines.append('bisect %d %d %s' % (c[0], c[1], ' '.join('%d %d' % (a, b) for a, b in tbl)))
+            k = bl(tbl, c)
+            want.append('py=%d abs=%d' % (k, k) if i % 2 else 'py=%d' % k)
+        got = d.query([ln.rstrip() for ln in lines])
+        for ln, g, w in zip(lines, got, want):
+            if not (g == w or (not w.count('abs') and g.startswith(w + ' '))):
+                raise InfraError('Lean model of bisect_left disagrees with the stdlib: %r -> %r, stdlib %r' % (ln, g, w))
+        self.stats['bisect_model_cases'] = len(lines)
 
     # ------------------------------------------------------------------ generation
     def cases(self, budget_s):
+        for c in self._cases(budget_s):
+            yield self._in_domain(c)
+
+    def _cases(self, budget_s):
         rng = self.rng
         # small, adversarial families first: several live sets; sorts whose comparisons raise
         for c in self.alias_cases(rng, 3000 if self.thorough else 260):
@@ -466,6 +546,31 @@ class C11(Property):
             yield c
 
     def deep_cases(self, budget_s):
+        for c in self._deep_cases(budget_s):
+            yield self._in_domain(c)
+
+    def _in_domain(self, case):
+        """drop pop(i) with i outside [-len, len): a MUTATOR outside the statement's domain - what it
+        returns, raises or leaves behind is unconstrained, so nothing after it could be judged"""
+        ref = Ref(case['n0'])
+        ops = []
+        for op in case['ops']:
+            inner = op[1] if op[0] == 'fork' else op
+            if inner[0] == 'popi' and not (-len(ref.l) <= inner[1] < len(ref.l)):
+                self.stats['dropped_pop_outside_domain'] = self.stats.get('dropped_pop_outside_domain', 0) + 1
+                continue
+            try:
+                ref.expect(op)
+            except Exception:
+                return case
+            ops.append(op)
+        if len(ops) == len(case['ops']):
+            return case
+        c = dict(case)
+        c['ops'] = ops
+        return c
+
+    def _deep_cases(self, budget_s):
         rng = self.rng
         for c in self.alias_cases(rng, 2000):
             yield c
@@ -599,8 +704,6 @@ class C11(Property):
                     op = ['popi', rng.choice([-1, 0, 1])]
                 if op and op[1] < -n:
                     op = None
-                if n and rng.random() < 0.03:
-                    op = ['popi', n + rng.randint(0, 2)]
             elif kind == 'get':
                 if n:
                     op = ['get', rng.choice([0, -1, n - 1, -n, rng.randrange(-n, n), rng.randrange(-n, n)])]
@@ -979,12 +1082,28 @@ class C11(Property):
         ref = Ref(case['n0'])
         try:
             for op in case['ops']:
+                if op[0] == 'popi' and not (-len(ref.l) <= op[1] < len(ref.l)):
+                    return False     # a MUTATOR outside the statement's domain: what it leaves is unconstrained
                 ref.expect(op)
                 if not ref.valid:
                     return False
         except Exception:
             return False
         return True
+
+    _raw_outside = False     # True only inside the informational probe of extra_checks
+
+    @staticmethod
+    def outside_statement(op, ref):
+        """a pure READ whose argument the statement excludes (s[i] with i outside [-len, len), a slice
+        with a negative or zero step): its result - value or exception - is left free by the statement,
+        so it is compared neither by the oracle nor by the correspondence"""
+        if op[0] == 'get':
+            n = len(ref.l)
+            return not (-n <= op[1] < n)
+        if op[0] == 'slice':
+            return op[3] is not None and op[3] <= 0
+        return False
 
     @staticmethod
     def _operand_tok(o, ref):
@@ -1038,6 +1157,8 @@ class C11(Property):
             return 'l'
         if name == 'in':
             return 'h%d' % op[1]
+        if self.outside_statement(op, ref) and not self._raw_outside:
+            return '_'       # a read the statement does not constrain: not compared (both sides say N)
         if name == 'get':
             return 'g%d' % op[1]
         if name == 'slice':
@@ -1293,8 +1414,18 @@ class C11(Property):
             return ','.join(str(x) for x in l) or '-'
         recs = []
         ops = case['ops']
+        ref = Ref(case['n0'])
         for k, o in enumerate(obs['recs']):
             op = ops[k] if k < len(ops) else ['?']
+            if k < len(ops):
+                outside = self.outside_statement(op, ref) and not self._raw_outside
+                try:
+                    ref.expect(op)
+                except Exception:
+                    pass
+                if outside and o.get('exc') != 'CaseTimeout':
+                    recs.append('N')
+                    continue
             if 'exc' in o:
                 if op[0] in ('sort', 'sortk') and o['exc'] == (case.get('pexc') or 'TypeError') \
                         and o.get('after') is not None:
